@@ -194,6 +194,14 @@ def _(prop, case, v):
     return False
 
 
+@rule("KF-C12-sort-keys-by-text")
+def _(prop, case, v):
+    """a result that is out of order on a number- or binary-typed sort key"""
+    if case.get("kind") != "hist" or v.get("sig") != "order":
+        return False
+    return v.get("sort_key_type") in ("N", "B")
+
+
 @rule("KF-C16-key-condition-shape")
 def _(prop, case, v):
     return case.get("kind") == "hist" and v.get("sig") == "key-condition-shape"
